@@ -54,3 +54,24 @@ Proof.
   split; [vm_compute; reflexivity|]. split; [|vm_compute; reflexivity].
   apply dsl_body_clean. vm_compute. reflexivity.
 Qed.
+
+(* ---- kind F, the main clauses: ALL plain programs, ALL schedules, at every point while manager.run is pending ----
+   a node is handed to the store at most once; what is handed over is the node's stored result (which is final, and is what its
+   consumers receive through _get_node_kwargs: see C03_on_plain_programs_arguments_are_the_final_values_of_the_inputs); and, when a
+   store is configured, every node that has a result has been handed to it exactly once (the call happens in the same loop step
+   in which the result is stored). Together with the theorem above: a write-once store can never make a plain pipeline fail. *)
+From MLPE Require Import Proofs.PlainCore Proofs.PlainSaves.
+
+Theorem C19_on_plain_programs_each_result_is_saved_exactly_once :
+  forall P, plain_prog P -> NoDup (p_order P (maind P)) ->
+    forall st, reachable P st -> over st = false -> main_done st = false ->
+      (forall m, count_saves m (st_trace st) <= 1) /\
+      (forall n v, In (OSave n v) (st_trace st) -> exists_result n (st_store st) = true /\ get_result n true (st_store st) = v) /\
+      (p_store P <> StNone -> forall m, exists_result m (st_store st) = true -> count_saves m (st_trace st) = 1).
+Proof. exact plain_saves. Qed.
+Print Assumptions C19_on_plain_programs_each_result_is_saved_exactly_once.
+
+Example C19_plain_saves_not_vacuous :
+  let st := auto_run cat_rhombus_store 7 init_state in
+  over st = false /\ main_done st = false /\ count_saves (KN 1) (st_trace st) = 1 /\ count_saves (KN 2) (st_trace st) = 1.
+Proof. vm_compute. repeat split; reflexivity. Qed.
